@@ -78,6 +78,7 @@ def run(chk):
                 "non-trivial = at least one line")
     explore(chk, docs, cap=(20 if quick else 26), maxlines=(4 if quick else 5), tree=False)
     chk.exhaustive = True
+    chk.note("schema_digest_mismatches", len(loadgen.DIGEST_MISMATCH))
     chk.assumptions += ["key-type and datatype results on vocabulary tokens are environment tables stated by reference "
                         "conversions written from the documentation (harness/zcv/refconv.py); C09 checks the real converters",
                         "the abstract schema record equals what the real parser builds from the rendered XML "
